@@ -1,5 +1,6 @@
 import Driver.Proto
 import PdtVerif.Model.Transcripts
+import PdtVerif.Model.TranscriptsText
 import PdtVerif.Spec.Transcripts
 /-! Driver for C11: trn / ctm / TextGrid / frame conversion / dispatch table. Glue only. -/
 open Lean Proto PdtVerif.Transcripts
@@ -72,6 +73,8 @@ def c11Trn : Handler := fun c => do
     ("text", strJ (String.ofList text)),
     ("read", resJ (readTrnSeq lines)),
     ("pool", resJ (readTrnPool chunk lines)),
+    -- the same file written through `open(..., newline="\r\n")` and read without newline translation
+    ("read_crlf_raw", resJ (readTrnSeq (pyLines (crlf text)))),
     ("in_domain", boolJ inDom),
     ("depth", natJ depth),
     ("spec", listJ (fun (u, t) => objJ [("utt", strJ (String.ofList u)),
@@ -151,8 +154,44 @@ def c11Ctm : Handler := fun c => do
   let inDom := total && inverse && distinct && timesOk
   if inDom && readJ.compress != (transcriptsJ (specCtm wc ts)).compress then
     throw "internal: model != spec inside the domain of C11_ctm"
+  -- text layer: the characters of the file, and read_ctm on those characters
+  let text : Option (List Char) := match writeCtmText m ts with
+    | .ok (some t) => some t
+    | _ => none
+  let ctmResJ := fun (r : Except CtmErr Transcripts) => match r with
+    | .error e => ctmErrJ e
+    | .ok r => transcriptsJ r
+  let fieldsOk := match written with
+    | .ok segs => segs.all (fun sg => ctmFieldOk sg.wfn.toList && ctmFieldOk sg.chan.toList && ctmFieldOk sg.tok.toList &&
+        decide (0 ≤ sg.start) && decide (0 ≤ sg.dur))
+    | .error _ => false
+  let readTextJ := match text with
+    | some t => ctmResJ (readCtmText w2u t)
+    | none => Json.null
+  -- C11_ctm_text: on printable fields reading the characters = reading the records
+  if fieldsOk && text.isSome && readTextJ.compress != readJ.compress then
+    throw "internal: text-level read != record-level read inside the domain of C11_ctm_text"
   pure (objJ [("lines", linesJ), ("read", readJ), ("in_domain", boolJ inDom),
+    ("text", match text with | some t => strJ (String.ofList t) | none => Json.null),
+    ("fields_ok", boolJ fieldsOk),
+    ("read_text", readTextJ),
+    ("read_crlf_raw", match text with | some t => ctmResJ (readCtmText w2u (crlf t)) | none => Json.null),
     ("spec", if inDom then transcriptsJ (specCtm wc ts) else Json.null)])
+
+/-- Hand-written ctm text (comments, confidence column, blank lines, odd spacing, malformed lines). -/
+def c11CtmText : Handler := fun c => do
+  let text ← getStr c "text"
+  let w2u : Option (String × String → Option String) ← match fieldOpt c "wc2utt" with
+    | none => pure none
+    | some j => do
+      let l ← strTriples j
+      let tbl := l.map (fun (w, ch, u) => ((w, ch), u))
+      pure (some (fun k => tbl.lookup k))
+  let universal ← getBool c "universal"
+  let t := if universal then universalNewlines text.toList else text.toList
+  pure (objJ [("read", match readCtmText w2u t with
+    | .error e => ctmErrJ e
+    | .ok r => transcriptsJ r)])
 
 /-! TextGrid -/
 def tgErrJ (e : TgErr) : Json :=
@@ -197,14 +236,63 @@ def c11TextGrid : Handler := fun c => do
     let fillSpecJ := match nofill, fill with
       | .ok (r, a, b), some ft => listJ timedJ (specFill ft b a r)
       | _, _ => Json.null
+    -- text layer: the characters written, parsed back (C11_textgrid_text), read from the characters
+    let chars := f.chars
+    let textDom := f.textOk
+    if textDom && parseTg chars != some f then
+      throw "internal: parseTg (f.chars) != f inside the domain of C11_textgrid_text"
+    if String.ofList chars != String.intercalate "\n" f.render ++ "\n" then
+      throw "internal: TgFile.chars != TgFile.render"
+    let optReadJ := fun (r : Option (Except TgErr (List Timed × Rat × Rat))) => match r with
+      | some r => readResJ r
+      | none => objJ [("unparsed", boolJ true)]
     pure (objJ [
       ("lines", listJ strJ f.render),
+      ("text", strJ (String.ofList chars)),
+      ("text_domain", boolJ textDom),
+      ("read_text", optReadJ (readTextGridText .byStart chars tier fill)),
+      ("read_text_crlf", optReadJ (readTextGridText .byStart (crlf chars) tier fill)),
       ("via_path_same", boolJ (match viaPath with | .ok g => g == f | .error _ => false)),
       ("point", boolJ isPoint),
       ("read", readResJ (readTextGrid .byStart f tier fill)),
       ("read_pinned", readResJ (readTextGrid .pinned f tier fill)),
       ("read_nofill", readResJ nofill),
       ("spec", objJ [("bound_ok", boolJ boundOk), ("fill", fillSpecJ)])])
+
+/-- A TextGrid with several tiers (structure only: the harness serialises it in the long and in the
+short layout); numbers are printed at precision `p`. -/
+def c11TgDoc : Handler := fun c => do
+  let p ← getNat c "precision"
+  let tiers ← getList (fun j => do
+    let name ← getStr j "name"
+    let point ← getBool j "point"
+    let tmin ← getRat j "tmin"
+    let tmax ← getRat j "tmax"
+    let ents ← getList jsonToTimed j "entries"
+    let body := if point then TgBody.points (ents.map (fun x => (fmt p x.2.1, x.1)))
+      else TgBody.intervals (ents.map (fun x => (fmt p x.2.1, fmt p x.2.2, x.1)))
+    pure (⟨name, fmt p tmin, fmt p tmax, body⟩ : TgTier)) c "tiers"
+  let tier : TierId ← match ← field c "tier_id" with
+    | .str s => pure (TierId.name s)
+    | j => TierId.idx <$> jsonToInt j
+  let fill ← match fieldOpt c "fill" with
+    | none => pure none
+    | some j => some <$> jsonToStr j
+  let nofill := readTextGridDoc .byStart tiers tier none
+  -- the selection rule, declaratively (C11_textgrid_tier_select)
+  let n : Int := tiers.length
+  let expected : Option TgTier := match tier with
+    | .name s => tiers.find? (fun t => t.name == s)
+    | .idx i => if 0 ≤ i then tiers[i.toNat]? else if 0 ≤ i + n then tiers[(i + n).toNat]? else none
+  let sel := match tierSelect tiers tier with | .ok t => some t | .error _ => none
+  if sel != expected then throw "internal: tierSelect != declarative selection"
+  pure (objJ [
+    ("read", readResJ (readTextGridDoc .byStart tiers tier fill)),
+    ("read_nofill", readResJ nofill),
+    ("selected", match sel with | some t => strJ t.name | none => Json.null),
+    ("fill_spec", match nofill, fill with
+      | .ok (r, a, b), some ft => listJ timedJ (specFill ft b a r)
+      | _, _ => Json.null)])
 
 /-! frames -/
 def jsonToTok (j : Json) : Except String Tok :=
@@ -262,6 +350,8 @@ def c11Frames : Handler := fun c => do
     pure (objJ [
       ("rows", listJ (fun (r : Int × Int × Int) => Json.arr #[intJ r.1, intJ r.2.1, intJ r.2.2]) rows),
       ("back", listJ tElemJ back),
+      -- `skip_frame_times=True`: ids only, which convert back to the bare tokens
+      ("back_plain", listJ tElemJ (tokenToTranscript i2t f (rows.map (fun r => (r.1, -1, -1))))),
       ("spec", objJ [("within", boolJ within), ("shift", ratToJson shift)])])
 
 def c11Dispatch : Handler := fun _ => do
@@ -270,4 +360,5 @@ def c11Dispatch : Handler := fun _ => do
 
 def main : IO Unit := Proto.run [
   ("c11.trn", c11Trn), ("c11.trn_line", c11TrnLine), ("c11.ctm", c11Ctm),
-  ("c11.textgrid", c11TextGrid), ("c11.frames", c11Frames), ("c11.dispatch", c11Dispatch)]
+  ("c11.textgrid", c11TextGrid), ("c11.frames", c11Frames), ("c11.dispatch", c11Dispatch),
+  ("c11.ctm_text", c11CtmText), ("c11.tg_doc", c11TgDoc)]
